@@ -169,6 +169,10 @@ pub fn tight(mut r: Rendered) -> Rendered {
     r
 }
 
+pub fn layout_by_name(n: &str) -> Option<Layout> {
+    ALL_LAYOUTS.iter().cloned().find(|l| format!("{:?}", l) == n)
+}
+
 pub fn render_plain(toks: &[Tok], layout: Layout) -> Rendered {
     render(toks, layout, &[], &|_| String::new())
 }
